@@ -81,7 +81,16 @@ def encode_to_dict(obj: Any, refs: Dict[int, Any]):
         return None
     else:
         # Otherwise, we need custom encoding with support for references
-        if isinstance(obj, dict):
+        if isinstance(obj, dict) and not all(isinstance(k, str) for k in obj):
+            # JSON only supports string keys, so we encode the items as a list of pairs
+            value = {
+                "__type": "dict",
+                "items": [
+                    [encode_to_dict(k, refs), encode_to_dict(v, refs)]
+                    for k, v in obj.items()
+                ],
+            }
+        elif isinstance(obj, dict):
             value = {
                 "__type": "dict",
                 "value": {k: encode_to_dict(v, refs) for k, v in obj.items()},
@@ -188,6 +197,12 @@ def decode_from_dict(d: Any, refs: Dict[int, Any]):
 
             elif d_type == "tuple":
                 value = tuple(decode_from_dict(d["value"], refs))
+
+            elif d_type == "dict" and "items" in d:
+                value = {
+                    decode_from_dict(k, refs): decode_from_dict(v, refs)
+                    for k, v in d["items"]
+                }
 
             elif d_type == "dict":
                 value = {k: decode_from_dict(v, refs) for k, v in d["value"].items()}
